@@ -25,7 +25,17 @@ def groups(sc, tier):
     kw = dict(sources=["src/crystal_diffraction.c", "src/xrayvars.c", "src/xraylib-aux.c"], extra=["harness/h_crystal.c", "harness/libm_uf.c"],
               export_local=True, harness_defines=["-DNALLOC=%d" % n], backends=("sat", "cvc5", "z3"), timeout=1800, unwind=n + 3, leak_check=True, object_bits=10,
               bounded="capacity <= %d, 1-character names, 1 / 2 atoms" % n)
-    return [Group("C14.K5.AddCrystal", "K5", "lemma_AddCrystal", functions=["Crystal_AddCrystal", "Crystal_ExtendArray", "Crystal_MakeCopy", "Crystal_ArrayFree", "Crystal_UnitCellVolume"], **kw),
-            Group("C14.K5.AddCrystal_builtin_full", "K5", "lemma_AddCrystal_builtin_full", functions=["Crystal_AddCrystal"], **kw),
-            Group("C14.K5.Get_List_Copy", "K5", "lemma_Get_List_Copy", functions=["Crystal_GetCrystal", "Crystal_MakeCopy", "Crystal_GetCrystalsList", "Crystal_Free", "Crystal_ArrayFree"], **kw),
-            Group("C14.K5.ArrayInit", "K5", "lemma_ArrayInit", functions=["Crystal_ArrayInit", "Crystal_ArrayFree", "Crystal_Free"], **kw)]
+    gs = [Group("C14.K5.AddCrystal_builtin_full", "K5", "lemma_AddCrystal_builtin_full", functions=["Crystal_AddCrystal"], **kw),
+          Group("C14.K5.ArrayInit", "K5", "lemma_ArrayInit", functions=["Crystal_ArrayInit", "Crystal_ArrayFree", "Crystal_Free"], **kw)]
+    for na in range(0, n + 1):
+        for nc in range(0, na + 1):
+            kw2 = dict(kw)
+            kw2["harness_defines"] = kw["harness_defines"] + ["-DSHAPE_NA=%d" % na, "-DSHAPE_NC=%d" % nc]
+            kw2["bounded"] = "capacity %d, %d stored crystals (1-character names, 1 / 2 atoms)" % (na, nc)
+            gs.append(Group("C14.K5.AddCrystal.cap%d_fill%d" % (na, nc), "K5", "lemma_AddCrystal",
+                            functions=["Crystal_AddCrystal", "Crystal_ExtendArray", "Crystal_MakeCopy", "Crystal_ArrayFree", "Crystal_UnitCellVolume"],
+                            expect_canaries=(["added"] + (["growth"] if nc == na else []) + (["duplicate"] if nc > 0 else [])), **kw2))
+            gs.append(Group("C14.K5.Get_List_Copy.cap%d_fill%d" % (na, nc), "K5", "lemma_Get_List_Copy",
+                            functions=["Crystal_GetCrystal", "Crystal_MakeCopy", "Crystal_GetCrystalsList", "Crystal_Free", "Crystal_ArrayFree"],
+                            expect_canaries=(["list end"] + (["found"] if nc > 0 else [])), **kw2))
+    return gs
